@@ -31,7 +31,7 @@ Qed.
 (* erase does not change a tree without special actions *)
 Lemma erase_simple : forall t, simple t = true -> erase t = t.
 Proof.
-  fix IH 1. intros [ty lit|nm|cases d]; cbn [simple erase]; intros H; [reflexivity|discriminate|].
+  fix IH 1. intros [ty lit|ty fn|nm|cases d]; cbn [simple erase]; intros H; [reflexivity|discriminate|discriminate|].
   apply andb_true_iff in H as [H1 H2]. f_equal; [|apply IH; exact H2].
   induction cases as [|[[k b] sub] r IHr]; [reflexivity|].
   apply andb_true_iff in H1 as [Hs Hr]. rewrite (IH sub Hs), (IHr Hr). reflexivity.
@@ -44,6 +44,43 @@ Proof.
   rewrite <- op_table_documented. apply in_map_iff. exists (c, tree). split; [|exact Hin].
   cbn [fst snd]. rewrite (erase_simple tree Hs). reflexivity.
 Qed.
+
+(* the same with the comment readers: `/` (/= // /* or SLASH) and `#` *)
+Ltac entry_c Hc :=
+  unfold lex_char; cbv zeta; rewrite Hc; cbn [N.eqb Pos.eqb];
+  unfold lex_slash, lex_bang; unfold op_eq, op_dbl, op_shift, single; cbn [interp_c]; unfold leaf, call;
+  rewrite ?Hc; cbn [N.eqb Pos.eqb str_eqb andb]; reflexivity.
+
+Lemma erase_simple_c : forall t, simple_c t = true -> erase t = t.
+Proof.
+  fix IH 1. intros [ty lit|ty fn|nm|cases d]; cbn [simple_c erase]; intros H; [reflexivity|reflexivity|discriminate|].
+  apply andb_true_iff in H as [H1 H2]. f_equal; [|apply IH; exact H2].
+  induction cases as [|[[k b] sub] r IHr]; [reflexivity|].
+  apply andb_true_iff in H1 as [Hs Hr]. rewrite (IH sub Hs), (IHr Hr). reflexivity.
+Qed.
+
+Theorem lex_char_follows_ref_c : forall c tree, In (c, tree) ref_op_table -> simple_c tree = true ->
+  forall n st, ch st = c -> lex_char n st = interp_c n tree st (line st) (idx st).
+Proof.
+  intros c tree Hin Hs n st Hc.
+  unfold ref_op_table in Hin. cbn [In] in Hin.
+  repeat (destruct Hin as [Hin|Hin]; [injection Hin as <- <-; try discriminate Hs; try (entry_c Hc)|]).
+  all: try contradiction.
+Qed.
+
+Theorem lex_char_follows_table_c : forall c tree, In (c, tree) op_table -> simple_c tree = true ->
+  forall n st, ch st = c -> lex_char n st = interp_c n tree st (line st) (idx st).
+Proof.
+  intros c tree Hin Hs. apply lex_char_follows_ref_c; [|exact Hs].
+  rewrite <- op_table_documented. apply in_map_iff. exists (c, tree). split; [|exact Hin].
+  cbn [fst snd]. rewrite (erase_simple_c tree Hs). reflexivity.
+Qed.
+
+Example follows_table_c_applies :
+  exists t1 t2, In (47, t1) op_table /\ simple_c t1 = true /\ simple t1 = false /\
+                In (35, t2) op_table /\ simple_c t2 = true /\
+                length (filter (fun p => simple_c (snd p)) op_table) = 24%nat.
+Proof. eexists _, _. vm_compute. repeat split; auto 40. Qed.
 
 (* non-vacuity: the table has entries the theorem applies to, e.g. the four-way `|` entry and `<` *)
 Example follows_table_applies :
